@@ -7,6 +7,7 @@ import (
 	"math"
 	"math/big"
 	"testing/iotest"
+	"time"
 
 	"github.com/iotaledger/hive.go/serializer/v2"
 	"github.com/iotaledger/hive.go/serializer/v2/stream"
@@ -370,14 +371,28 @@ type readObs struct {
 	consumed int
 	alloc    uint64
 	iters    int
+	hung     bool // the call did not return within readDeadline (nothing else of the observation is valid)
 }
+
+// readDeadline: a stream read helper that has not returned after this long is reported as a hang (a loop around a reader
+// that makes no progress); the largest legitimate case (3 MiB through 65521-byte chunks) takes milliseconds.
+const readDeadline = 20 * time.Second
 
 func runRead(o rop, kind string, data []byte, r *vx.Rng) (readObs, string) {
 	rd, evs, consumed, rs := mkReader(kind, data, r)
 	var ob readObs
 	var get func() string
 	collIters = 0
-	ob.alloc, ob.panicked, ob.pv = measured(func() { get, ob.err = o.run(rd, rs) })
+	done := make(chan struct{})
+	go func() {
+		defer close(done)
+		ob.alloc, ob.panicked, ob.pv = measured(func() { get, ob.err = o.run(rd, rs) })
+	}()
+	select {
+	case <-done:
+	case <-time.After(readDeadline):
+		return readObs{hung: true, res: "Panic"}, evs // the goroutine keeps spinning: the caller reports and exits
+	}
 	ob.consumed = consumed()
 	ob.iters = collIters
 	switch {
